@@ -33,8 +33,8 @@ type fsmEvent struct {
 	Kind      byte
 	At        time.Time // wall-clock instant of this event (zero: derived from WinClosed)
 	WinClosed bool      // recording window closed while this event is processed
-	CheckFail bool // CheckCanRecord of the motion sink refuses
-	StartFail bool // StartRecording of the motion sink fails
+	CheckFail bool      // CheckCanRecord of the motion sink refuses
+	StartFail bool      // StartRecording of the motion sink fails
 }
 
 type fsmConfig struct {
@@ -180,11 +180,11 @@ type fsmRun struct {
 	writeFaultPct int
 	faultRNG      *vRNG
 	keepBg        bool
-	now    time.Time
-	seq    int
-	acc    int
-	accOf  []int // seq -> accepted index or -1
-	level  uint16
+	now           time.Time
+	seq           int
+	acc           int
+	accOf         []int // seq -> accepted index or -1
+	level         uint16
 	// hooks for specialised harnesses
 	afterStep func(r *fsmRun, s *stepRec)
 }
